@@ -198,6 +198,9 @@ func runC16(c *Ctx) {
 	if n10 == 0 {
 		r.Fail("S10", "v1#ctx-default", "-", "UNRESOLVED-ANCHOR: no defaulting of Opts.Ctx found")
 	}
+	// S11: there is a goroutine to complete
+	r.Doc("S11", "every successful return of a v1 constructor is reached through the go statement of the discipline's goroutine (whose completion Stop() waits for)", 3)
+	checkEntryStarted(c, p, "S11")
 	// S8: the stop API blocks until completion (Break on the own breaker, synchronously)
 	r.Doc("S8", "Stop()/GracefulStop() call Break() of the matching breaker synchronously (they return only after the goroutine completed)", 5)
 	checkStopSync(c, p, "S8")
